@@ -43,7 +43,7 @@ ASSUMPTIONS = [
     "partial loss carries no detection obligation",
 ]
 PROBES = ["visited_ERROR_PING_MISSED", "visited_ERROR_RF_FAULT", "visited_ERROR_NEEDS_ATTENTION", "visited_ERROR_SPA_NOT_FOUND",
-          "reconnected", "too_many_rf_errors_raised_by_library", "blackout_detected_in_time", "handler_suspended", "reset_in_CONNECTING", "reset_in_LOCATING_SPAS", "reset_in_CONNECTED"]
+          "reconnected", "too_many_rf_errors_raised_by_library", "handler_suspended", "reset_in_CONNECTING", "reset_in_LOCATING_SPAS", "reset_in_CONNECTED"]
 N_QUICK = 2400
 
 
